@@ -145,6 +145,8 @@ def streams(rng, tier):
         elif fam == "date":
             ltys = [rng.choice(["date", "dt"]) for _ in range(ncol)]
             rty = "td"
+            if rng.random() < 0.4:                          # date columns with an int operand: days, column by column
+                ltys, rty, fn = ["date"] * ncol, "int", rng.choice(["add", "add", "sub"])
         else:
             ltys = [rng.choice(tcols) for _ in range(ncol)]
             rty = rng.choice(["int", "float", "str", "td"])
@@ -738,6 +740,27 @@ def _obs_tab(case):
     except Exception as e:
         o["exc"] = err_name(e)
         o["msg"] = f"{type(e).__name__}: {e}"[:160]
+    # table arithmetic IS the column-by-column operation: whatever `column <op> operand` gives for each column of T (a value
+    # list or an error - dates + ints take the date rule, not Python's), the table operation gives the same
+    try:
+        colwise = []
+        for j, c in enumerate(T.cols()):
+            oj = other.cols()[j] if isinstance(other, Table) else other
+            try:
+                rc = pyop(c, oj)
+                colwise.append([repr(x) for x in rc._underlying] if isinstance(rc, Vector) else ["not a vector"])
+            except Exception as e:                           # noqa: BLE001
+                colwise.append(["raises", err_name(e)])
+        if "exc" in o:
+            got = ["raises", o["exc"]]
+            if colwise and all(cw[:1] != ["raises"] for cw in colwise):
+                o["colwise"] = {"table": got, "columns": colwise}
+        elif "res" in o:
+            got = [[repr(x) for x in c._underlying] for c in r.cols()]
+            if len(got) == len(colwise) and all(cw[:1] != ["raises"] for cw in colwise) and got != colwise:
+                o["colwise"] = {"table": got, "columns": colwise}
+    except Exception:                                        # noqa: BLE001
+        pass
     o["tab"] = _tab_json(tab)
     return o
 
@@ -804,6 +827,15 @@ def _obs_bc(case):
                 else [None if r is None else r[1] for r in ref])
     try:
         attr = getattr(v, name)
+        if call:
+            # a bound broadcast method is a value: fetching ANOTHER attribute of the same vector before calling it changes nothing
+            for second in bc_names(ty):
+                if second != name and not second.startswith("from") and callable(getattr(t, second, None)):
+                    try:
+                        getattr(v, second)
+                    except Exception:                        # noqa: BLE001
+                        pass
+                    break
         r = attr(*args, **kwargs) if call else attr
         if not isinstance(r, Vector):
             o["skip"] = "not a vector"
@@ -968,6 +1000,9 @@ def oracle(case, obs):
         return None
     ref = obs.get("ref")
     op = case["op"]
+    if obs.get("colwise") and obs.get("ref") != "mismatch":
+        return (f"tab-not-columnwise: {_what(case)}: the table operation gives {obs['colwise']['table']}, the same operation on each "
+                f"column gives {obs['colwise']['columns']}")
     if obs.get("stale"):
         return f"bc-stale-after-write: {_what(case)} writes={case.get('writes')}: {obs['stale']}"
     if ref == "mismatch":
